@@ -18,6 +18,8 @@ func main() {
 		}
 	case "store-replay":
 		os.Exit(runStoreReplay(os.Args[2:]))
+	case "reader-replay":
+		os.Exit(runReaderReplay(os.Args[2:]))
 	case "store-replay-one":
 		b, err := os.ReadFile(os.Args[3])
 		if err != nil {
